@@ -792,3 +792,86 @@ Proof.
       unfold acl_size in Hsz. fold (slookup gdpr sm) in Hin. rewrite Hin in Hsz.
       unfold str_size in Hsz. change (len gdpr) with 22. lia.
 Qed.
+
+(* ---------- why [info_size < 2^32] is a hypothesis: Encode compares uint32(size) ---------- *)
+(* whenever the size exceeds the limit but its low 32 bits do not, Encode reports success for a
+   frame longer than 14 + 65536 bytes *)
+Lemma enc_wrap tl p :
+  NoDup (keys (p_str p)) ->
+  L_max < info_size (p_int p) (p_str p) -> info_size (p_int p) (p_str p) mod two32 <= L_max ->
+  exists b, encode tl p = Ok b /\ len b = L_meta + info_size (p_int p) (p_str p).
+Proof.
+  intros Hnd Hbig Hwrap. rewrite (encode_spec tl p Hnd). unfold u32.
+  destruct (N.ltb_spec L_max (info_size (p_int p) (p_str p) mod two32)) as [Hx|_]; [lia|].
+  eexists. split; [reflexivity|].
+  fold (info_bytes (p_pid p) (p_int p) (p_str p)).
+  rewrite !len_app, !be_len, info_bytes_len. unfold L_meta. lia.
+Qed.
+
+(* such parameters exist: 65536 int keys, each with a value of 65532 bytes: 2 + 3 + 65536 *
+   65536 bytes, padded to 2^32 + 8 *)
+Definition wrap_im : list (N * bytes) :=
+  map (fun k => (N.of_nat k, repeat 0 (N.to_nat 65532))) (seq 0 (N.to_nat 65536)).
+
+Lemma ikvs_size_const (v : bytes) l :
+  ikvs_size (map (fun k => (N.of_nat k, v)) l) = len l * (4 + len v).
+Proof.
+  induction l as [|k l IH]; [reflexivity|].
+  cbn [map]. rewrite ikvs_size_cons, IH, len_cons. cbn [snd]. unfold str_size. lia.
+Qed.
+
+Lemma wrap_im_size : info_size wrap_im [] = two32 + 8.
+Proof.
+  assert (Hraw : raw_info_size wrap_im [] = two32 + 5).
+  { rewrite raw_split. change (acl_size []) with 0. change (kv_size []) with 0.
+    unfold int_size, wrap_im.
+    destruct (N.to_nat 65536) as [|n] eqn:En; [lia|]. rewrite <- En. clear n En.
+    assert (E : ikvs_size (map (fun k => (N.of_nat k, repeat 0 (N.to_nat 65532))) (seq 0 (N.to_nat 65536)))
+                = two32).
+    { rewrite ikvs_size_const, len_repeat. unfold len. rewrite seq_length, !N2Nat.id. reflexivity. }
+    destruct (map _ (seq 0 (N.to_nat 65536))) as [|x r] eqn:Em.
+    - cbn in E. discriminate.
+    - rewrite E. reflexivity. }
+  unfold info_size. cbv zeta. rewrite Hraw. reflexivity.
+Qed.
+
+Lemma wrap_im_nodup : NoDup (keys wrap_im).
+Proof.
+  unfold keys, wrap_im. rewrite map_map. cbn [fst].
+  apply FinFun.Injective_map_NoDup; [|apply seq_NoDup].
+  intros a b H. lia.
+Qed.
+
+Lemma wrap_im_wf : Forall ikv_wf wrap_im.
+Proof.
+  unfold wrap_im. apply Forall_forall. intros kv Hin. apply in_map_iff in Hin.
+  destruct Hin as (k & <- & Hk). apply in_seq in Hk. split; cbn [fst snd].
+  - lia.
+  - apply Forall_forall. intros x Hx. apply repeat_spec in Hx. subst. unfold wfb. lia.
+Qed.
+
+(* the unconditional form of the size clause of the layout, and its refutation *)
+Definition enc_size_statement : Prop :=
+  forall tl p b, NoDup (keys (p_str p)) -> params_wf p -> encode tl p = Ok b ->
+                 info_size (p_int p) (p_str p) <= L_max.
+
+(* generic in the map, so that nothing ever unfolds the 4 GiB witness *)
+Lemma enc_size_refuted_by im :
+  NoDup (keys im) -> Forall ikv_wf im -> info_size im [] = two32 + 8 -> ~ enc_size_statement.
+Proof.
+  intros _ Hiw Hs H.
+  set (p := {| p_flags := 0; p_seq := 0%Z; p_pid := 0; p_int := im; p_str := [] |}).
+  assert (Hnd : NoDup (keys (p_str p))) by constructor.
+  assert (Hwf : params_wf p).
+  { unfold params_wf, p. cbn [p_flags p_seq p_pid p_int p_str].
+    split; [lia|]. split; [unfold in_signed; cbn; lia|]. split; [lia|].
+    split; [exact Hiw|constructor]. }
+  destruct (enc_wrap 0 p Hnd) as (b & Hb & _); cbn [p_int p_str p]; rewrite ?Hs.
+  - unfold L_max, two32. lia.
+  - unfold L_max, two32. change ((4294967296 + 8) mod 4294967296) with 8. lia.
+  - specialize (H 0 p b Hnd Hwf Hb). cbn [p_int p_str p] in H. rewrite Hs in H.
+    unfold L_max, two32 in H. lia.
+Qed.
+
+Lemma enc_size_statement_refuted : ~ enc_size_statement.
+Proof. exact (enc_size_refuted_by wrap_im wrap_im_nodup wrap_im_wf wrap_im_size). Qed.
